@@ -29,6 +29,7 @@ DRIVER = os.path.join(OCAML, "pvmodels")
 IMPL_PY = "/venv/bin/python"
 SCRATCH_ROOT = "/var/tmp"
 NCPU = os.cpu_count() or 4
+MODEL_TIMEOUT = 1500
 
 ALLOWED_AXIOMS = {
     # standard-library axioms a property theorem may depend on (named in DESIGN.md §4)
@@ -284,7 +285,12 @@ def run_models(cases, jobs=None):
 
     def feed(item):
         sh, p, data = item
-        o, _ = p.communicate(data.encode())
+        try:
+            o, _ = p.communicate(data.encode(), timeout=MODEL_TIMEOUT)
+        except subprocess.TimeoutExpired:
+            p.kill()
+            p.communicate()
+            raise RuntimeError("model driver did not answer within %d s (case too large for exact arithmetic?)" % MODEL_TIMEOUT)
         if p.returncode != 0:
             raise RuntimeError("model driver failed")
         lines = o.decode().split("\n")
